@@ -21,7 +21,7 @@ func c05(c *q.Ctx) {
 	kinds := []q.MirrorKind{
 		{Name: "balance cache", Dirty: []string{"UtxoVM.AddBalance", "UtxoVM.SubBalance"}, Clean: []string{"UtxoVM.ClearBalanceCache"}},
 		{Name: "utxo cache", Dirty: []string{"UtxoCache.Insert", "CacheFiller.Commit"}, CleanStores: []string{"UtxoVM.UtxoCache"}},
-		{Name: "total supply", Dirty: []string{"UtxoVM.UpdateUtxoTotal"}},
+		{Name: "total supply", Dirty: []string{"UtxoVM.UpdateUtxoTotal"}, Clean: []string{"UtxoVM.ReloadTotal"}},
 		{Name: "header cache", Dirty: []string{"LRUCache.Add@*.blkHeaderCache"}, DirtyStores: []string{"InternalBlock.InTrunk@ledger.(*Ledger).fetchBlock(*", "InternalBlock.NextHash@ledger.(*Ledger).fetchBlock(*", "InternalBlock.InTrunk@phi{ledger.(*Ledger).fetchBlock(*", "InternalBlock.NextHash@phi{ledger.(*Ledger).fetchBlock(*"}},
 	}
 	infallible := map[string]string{
